@@ -285,6 +285,18 @@ func (s *sim) rangeQuery() *core.Violation {
 	size := uint([]int{0, 1, 2, 3, n, n + 1}[t.Draw(6)])
 	num := uint(t.Draw(4))
 
+	// "no pagination" is commonly asked for with a huge size (number*size stays below 2^63)
+	if t.Bool(1, 12) {
+		size = []uint{1 << 40, 1 << 62, 1<<63 - 1, 1 << 31}[t.Draw(4)]
+		num = uint(t.Draw(2))
+
+		if size > 1<<62 {
+			num = 0
+		}
+
+		s.st.Inc("probe:huge-page-size")
+	}
+
 	if t.Bool(1, 30) && size > 0 {
 		num = uint(1<<62) / size // number*size stays below 2^63
 	}
